@@ -17,7 +17,7 @@ RULE = ('real pass.transform on (text, cursor) for every text pass and argument:
         'non-trivial = distinct (pass, arg, text, cursor) with result OK')
 TRUSTED = ['hand-written pass models coq/Passes/Edit.v tied to cvise/passes/*.py by this correspondence run; CPython re for the regular expressions (abstract in the theorems)',
            'text-mode I/O: texts are ASCII without CR here (see the known finding on universal newlines)']
-ASSUMPTIONS = ['byte-level statement needs inputs without CR characters: Python text mode rewrites CR / CRLF as LF on reading (known finding F-CR)']
+ASSUMPTIONS = ['main exploration uses CR-free texts; CR / CRLF inputs are exercised separately: the passes rewrite every line end (known finding cr-normalised-outside-edit) and the candidate must still be the edit of the decoded text']
 IMPORTS = ['From CV Require Import Matcher.NM Matcher.NMCorr Passes.Edit Passes.PassCorr.']
 
 TOKENS = ['/***/', '/** d **/', '/* a **/', '/*/', 'a', 'b1', '(', ')', '{', '}', '[', ']', '<', '>', '=', ',', ':', '?', ';', "'x'", '0', '12', '0x1F', '7U', '-3', ' ', ' ', '\n', '\n',
@@ -363,6 +363,55 @@ def explore(ctx):
         for b in bad[:3]:
             ctx.broke('correspondence', fn, f'case {cases[b][0][:500]} impl {cases[b][1][:80]}')
     ctx.sample({'text': texts[3], 'passes': sorted(cs.by), 'model_cases': n})
+
+
+
+def cr_section(ctx):
+    """Inputs with CR / CRLF line ends.  Python's text mode hands the passes a translated copy, so today every pass
+    rewrites ALL line ends of the file (known finding cr-normalised-outside-edit); what must still hold is that the
+    candidate equals the pass's edit applied to that translated text — anything else mangles the file."""
+    from cvise.passes.balanced import BalancedPass
+    from cvise.passes.comments import CommentsPass
+    from cvise.passes.ints import IntsPass
+    from cvise.passes.special import SpecialPass
+    from cvise.passes.lines import LinesPass
+    from cvise.passes.ternary import TernaryPass
+    texts = ['int a = 1;\r\nint x = 0x10;\r\n y = (0x1FUL);\r\n', 'a\r\n(b)\r\nc = 12, 0777;\r', "/* c */\r\nextern 'C' int f(a ? 0x2 : 3);\r\n// d\r\n",
+              'l1\r\nl2\r\nl3\r\n', 'x = (1 ? 22 : 33);\r\n{ 0x44; }\r\n']
+    d = os.path.join(ctx.tmp, 'c07cr')
+    os.makedirs(d, exist_ok=True)
+    path = os.path.join(d, 'in.c')
+    for text in texts:
+        norm = text.replace('\r\n', '\n').replace('\r', '\n')
+        for cls, arg in ((IntsPass, 'a'), (IntsPass, 'b'), (IntsPass, 'd'), (SpecialPass, 'b'), (BalancedPass, 'parens'), (BalancedPass, 'curly-inside'),
+                         (CommentsPass, None), (TernaryPass, 'b'), (LinesPass, 'None')):
+            p = cls(arg, {})
+            p.max_transforms = None
+            with open(path, 'w', newline='') as f:
+                f.write(text)
+            try:
+                sts = states_all_reject(p, path, 8)
+            except Exception:
+                continue
+            for st in sts:
+                res1, out_raw, _, _ = run_transform(ctx, p, text, st)
+                res2, out_norm, _, _ = run_transform(ctx, p, norm, st)
+                ctx.evaluations += 1
+                ctx.count('cr-inputs')
+                if res1 != 'OK':
+                    continue
+                rep = {'pass': cls.__name__, 'arg': arg, 'text': text, 'state': repr(st)[:200]}
+                if out_raw != out_norm or res1 != res2:
+                    ctx.violation(f'cr-corrupts-edit:{cls.__name__}', f'{cls.__name__}::{arg} on {text!r}: candidate {out_raw!r} is not the edit {out_norm!r} of the decoded text', rep)
+                elif '\r' in text and '\r' not in out_raw:
+                    ctx.violation('cr-normalised-outside-edit', f'{cls.__name__}::{arg} on {text!r}: every CR of the file was rewritten, not only the matched region', rep)
+
+_explore_main = explore
+
+
+def explore(ctx):
+    _explore_main(ctx)
+    cr_section(ctx)
 
 
 def replay(ctx, payload):
